@@ -3,7 +3,7 @@ from props.c02 import TRUSTED, ASSUME
 
 def main():
     c = Check("C03")
-    c.prove(gen=["wire"])
+    c.prove(gen=["wire", "stmts"])
     c.correspond("rbc")
     c.correspond("disp")
     c.correspond("rbcsys")
